@@ -54,7 +54,7 @@ MCEntrySeq == <<
     IP(2, "nl"), IP(3, "plain"), OtherEntry >>
 MCEntries == {MCEntrySeq[i] : i \in 1..Len(MCEntrySeq)}
 \* quick tier: the entries that carry a clause each (exact, whole-label wildcard, the D13 poison, the
-\* D14 capitalised ACE prefix, a one-label wildcard that globs "[v6]", IP text in a DNS entry, two IP values, a non-identity)
+\* D15 capitalised ACE prefix, a one-label wildcard that globs "[v6]", IP text in a DNS entry, two IP values, a non-identity)
 MCEntriesQ == {DNS(<<La, Lb>>), DNS(<<Lstar, Lb>>), DNS(<<L2star, Lb>>), DNS(<<LXNstar, Lb>>), DNS(<<Lstar>>), DNS(<<La, Lstar>>),
                DNS(T1wild), IP(1, "plain"), IP(2, "alt"), OtherEntry}
 MCHostSeq == <<
@@ -74,6 +74,8 @@ MCCNSeq == << <<La, Lb>>, <<Lstar, Lb>>, <<L2star, Lb>>, <<Lstar>>, <<LXNstar, L
 MCCNs == {MCCNSeq[i] : i \in 1..Len(MCCNSeq)}
 NoDefects == {}
 AllDefects == {"ABORT", "ACECASE"}          \* the code as it is at the pinned commit
+OnlyAbort == {"ABORT"}                      \* (emission follows the deviations the harness finds in the tree,
+OnlyAceCase == {"ACECASE"}                  \*  so MATCHER stays drift-free after a fix: commit)
 
 \* ---------------------------------------------------------------- emission (spec -> code)
 \* Invariants that are always TRUE and print.  Sharded: every shard explores the (tiny) state
